@@ -236,4 +236,14 @@ def equivalent(a: Iterable[Atom], b: Iterable[Atom], nonneg=ALL, inv: Iterable[A
 
 def unsat(atoms: Iterable[Atom], nonneg=ALL) -> bool:
     """The conjunction of atoms has no integer solution with the given variables non-negative (sound)."""
-    return _unsat(_to_le(list(atoms)), ALL if nonneg is ALL else set(nonneg))
+    atoms = list(atoms)
+    nn = ALL if nonneg is ALL else set(nonneg)
+    if _unsat(_to_le(atoms), nn):
+        return True
+    # a disequality e != 0 contradicts the rest when the rest forces e == 0
+    for i, (op, n) in enumerate(atoms):
+        if op == '!=':
+            rest = atoms[:i] + atoms[i + 1:]
+            if implies([a for a in rest if a[0] != '!='], ('==', n), nn):
+                return True
+    return False
